@@ -409,8 +409,14 @@ class SFNTWriter(object):
 
     def writeMasterChecksum(self, directory):
         checksumadjustment = self._calcMasterChecksum(directory)
+        head = self.tables["head"]
+        if head.length < 12:
+            # a damaged 'head' carried over as raw bytes has no room for the
+            # checkSumAdjustment field: writing it would clobber the next table
+            log.warning("'head' table too short, checkSumAdjustment not written")
+            return
         # write the checksum to the file
-        self.file.seek(self.tables["head"].offset + 8)
+        self.file.seek(head.offset + 8)
         self.file.write(struct.pack(">L", checksumadjustment))
 
     def reordersTables(self):
